@@ -285,7 +285,8 @@ def obligations(tier):
                         bounds='as above but the single reuse event may strike at any allocation 0..%d during the history (dead identity #0..%d), or not at all' % (12 if q else 24, 1 if q else 2),
                         smoke=[[o0, 5, 0, 0, 0, 0, -1, 0], [o0, 7, 0, 0, 1, 0, 6, 0]]))
     if not q:
-        for o0 in range(len(OPS)):
+        deep = [OPS.index(x) for x in ('shared-pair', 'v>>w', 'setattr', 'Table(list)', 'promote', 'drop-vector', 'drop-table', 'self-write', 'empties', 'full-slice')]
+        for o0 in deep:
             for o1 in range(len(OPS)):
                 obs.append(dict(name='pinned[H=3,%s,%s]' % (OPS[o0], OPS[o1]), fn='h_hist', config={'o0': o0, 'o1': o1, 'H': 3, 'prefix': prefix, 'pinned': True, 'maxwhich': 15}, budget=600,
                                 bounds='depth 3: first two operations fixed per job, every third operation; pinned reuse of dead identity #0..15', smoke=[[o0, o1, 5, 0, 0, 0, -2, 0]]))
